@@ -21,11 +21,19 @@ type pnode struct {
 	t      *tnode
 	f      *tfield // the struct field this node fills (nil: top, element, entry)
 	parent *pnode
-	path   string // dotted configuration path
+	path   string // dotted configuration path (what an error has to name)
+	rpath  string // dotted path of the position in the unpacked result (differs under append/prepend)
+	seg    string // last segment of path ("" for inline fields and the top)
+	rseg   string // last segment of rpath
+	mode   string // merge mode in force at this node: tag option of the nearest field, else the global option
+	global string // top node: the merge option passed to Unpack ("" none)
 	shape  string // shape reported for a fault at this position
 	sshape string // struct-like nodes: shape of the plain fields inside
 	key    string // map entries
 	isElem bool   // slice/array element or map entry: inCfg/inPre are fixed by the collection
+	// dropped: pre-filled element of a slice that the configuration replaces
+	// (replace mode): it is rendered into the target but is no fault position
+	dropped bool
 
 	inCfg, inPre bool
 	cfgNull      bool        // the configuration holds an explicit null here
@@ -324,7 +332,15 @@ func childPath(path, name string) string {
 }
 
 func (g *pgen) node(t *tnode, f *tfield, parent *pnode, path, shape string, ctx pctx, init interface{}) *pnode {
-	n := &pnode{t: t, f: f, parent: parent, path: path, shape: shape}
+	n := &pnode{t: t, f: f, parent: parent, path: path, rpath: path, shape: shape, mode: parent.mode}
+	if f != nil {
+		if !f.inline {
+			n.seg, n.rseg = f.cfg, f.cfg
+		}
+		if f.mode != "" {
+			n.mode = f.mode
+		}
+	}
 	switch {
 	case t.k.scalar(), t.k == kPtr && t.elem.k.scalar():
 		g.leaf(n, ctx, init)
@@ -571,11 +587,13 @@ func (g *pgen) elemShape(k kind) string {
 	return "map-entry"
 }
 
-// elem creates one element / entry of a collection with fixed flags.
-func (g *pgen) elem(coll *pnode, name string, inCfg, inPre bool) *pnode {
+// elem creates one element / entry of a collection with fixed flags. seg is
+// its index in the configuration list (or key), rseg its index in the result.
+func (g *pgen) elem(coll *pnode, seg, rseg string, inCfg, inPre bool) *pnode {
 	e := coll.t.elem
 	shape := g.elemShape(coll.t.k)
-	n := &pnode{t: e, parent: coll, path: childPath(coll.path, name), shape: shape, isElem: true}
+	n := &pnode{t: e, parent: coll, path: childPath(coll.path, seg), rpath: childPath(coll.rpath, rseg), seg: seg, rseg: rseg,
+		shape: shape, isElem: true, mode: coll.mode}
 	ctx := pctx{inCfg, inPre, inCfg}
 	if e.k.scalar() {
 		g.leaf(n, ctx, nil)
@@ -587,8 +605,23 @@ func (g *pgen) elem(coll *pnode, name string, inCfg, inPre bool) *pnode {
 	return n
 }
 
+// sliceMode is the way Unpack combines a configured list with a pre-filled
+// slice under the merge mode in force: "" (index by index), append, prepend,
+// replace.
+func sliceMode(mode string) string {
+	switch mode {
+	case "append", "prepend":
+		return mode
+	case "replace", "replacearr":
+		return "replace"
+	}
+	return ""
+}
+
 func (g *pgen) slice(n *pnode, ctx pctx) {
 	r := g.r
+	req, nz := n.f.has("required"), n.f.has("nonzero")
+	mode := sliceMode(n.mode)
 	nCfg, nPre := 0, 0
 	if ctx.canCfg {
 		nCfg = r.Intn(4)
@@ -599,25 +632,97 @@ func (g *pgen) slice(n *pnode, ctx pctx) {
 	if ctx.canPre {
 		nPre = r.Intn(4)
 	}
-	if n.t.elem.needsCfg() && nPre > nCfg {
-		nPre = nCfg
-	}
-	if n.f.has("required") && nCfg == 0 {
+	if req && nCfg == 0 {
 		if !ctx.canCfg {
 			g.infeasible = true
 		}
 		nCfg = 1
 	}
-	if n.f.has("nonzero") && nCfg+nPre == 0 {
-		if ctx.canCfg {
-			nCfg = 1
-		} else {
+	if mode == "" {
+		// index by index: elements below both lengths are merged, the tail of the
+		// longer side is kept
+		if n.t.elem.needsCfg() && nPre > nCfg {
+			nPre = nCfg
+		}
+		if nz && nCfg+nPre == 0 {
+			if ctx.canCfg {
+				nCfg = 1
+			} else {
+				nPre = 1
+			}
+		}
+		n.inCfg, n.inPre = nCfg > 0, nPre > 0
+		for i := 0; i < nCfg || i < nPre; i++ {
+			n.kids = append(n.kids, g.elem(n, strconv.Itoa(i), strconv.Itoa(i), i < nCfg, i < nPre))
+		}
+		g.emptyOrNull(n, ctx, nCfg, nPre > 0)
+		return
+	}
+	// append / prepend / replace: the configured and the pre-filled elements
+	// are separate values
+	if n.t.elem.needsCfg() {
+		nPre = 0
+	}
+	present := nCfg > 0 || ctx.canCfg && !req && r.Intn(2) == 0 // present and empty: `[]`
+	survive := nPre
+	if mode == "replace" && present {
+		survive = 0
+	}
+	if nz && nCfg+survive == 0 {
+		switch {
+		case ctx.canCfg:
+			nCfg, present = 1, true
+		case n.t.elem.needsCfg():
+			g.infeasible = true
+		default:
 			nPre = 1
 		}
 	}
-	n.inCfg, n.inPre = nCfg > 0, nPre > 0
-	for i := 0; i < nCfg || i < nPre; i++ {
-		n.kids = append(n.kids, g.elem(n, strconv.Itoa(i), i < nCfg, i < nPre))
+	n.inCfg, n.inPre = present, nPre > 0
+	cfgAt, preAt := 0, 0
+	switch {
+	case mode == "append":
+		cfgAt = nPre
+	case mode == "prepend":
+		preAt = nCfg
+	}
+	pres := func() {
+		for i := 0; i < nPre; i++ {
+			k := g.elem(n, strconv.Itoa(preAt+i), strconv.Itoa(preAt+i), false, true)
+			if mode == "replace" && present {
+				k.dropped = true
+				k.seg, k.rseg = "~"+strconv.Itoa(i), "~"+strconv.Itoa(i)
+			}
+			n.kids = append(n.kids, k)
+		}
+	}
+	if mode == "append" {
+		pres()
+	}
+	for j := 0; j < nCfg; j++ {
+		n.kids = append(n.kids, g.elem(n, strconv.Itoa(j), strconv.Itoa(cfgAt+j), true, false))
+	}
+	if mode != "append" {
+		pres()
+	}
+	if !present {
+		g.emptyOrNull(n, ctx, 0, nPre > 0)
+	}
+}
+
+// emptyOrNull: a collection without configured elements is sometimes present
+// in the configuration all the same, as an empty list / object or as null.
+// Neither is used under `required`, nor where the result would be an empty
+// collection under `nonzero`.
+func (g *pgen) emptyOrNull(n *pnode, ctx pctx, nCfg int, hasPre bool) {
+	if nCfg > 0 || !ctx.canCfg || g.force || n.f.has("required") || (n.f.has("nonzero") && !hasPre) {
+		return
+	}
+	switch g.r.Intn(8) {
+	case 0, 1:
+		n.inCfg = true // `[]` or `{}`
+	case 2:
+		n.inCfg, n.cfgNull = true, true
 	}
 }
 
@@ -625,7 +730,7 @@ func (g *pgen) array(n *pnode, ctx pctx) {
 	n.inCfg = ctx.canCfg && (g.force || !ctx.canPre || n.t.elem.needsCfg() || g.r.Intn(2) == 0)
 	n.inPre = ctx.canPre
 	for i := 0; i < n.t.alen; i++ {
-		n.kids = append(n.kids, g.elem(n, strconv.Itoa(i), n.inCfg, n.inPre))
+		n.kids = append(n.kids, g.elem(n, strconv.Itoa(i), strconv.Itoa(i), n.inCfg, n.inPre))
 	}
 }
 
@@ -656,20 +761,33 @@ func (g *pgen) mapNode(n *pnode, ctx pctx) {
 			break
 		}
 		o := opts[r.Intn(len(opts))]
-		n.kids = append(n.kids, g.elem(n, mapKeys[perm[i]], o != "pre", o != "cfg"))
-		n.kids[len(n.kids)-1].key = mapKeys[perm[i]]
+		k := g.elem(n, mapKeys[perm[i]], mapKeys[perm[i]], o != "pre", o != "cfg")
+		k.key = mapKeys[perm[i]]
+		n.kids = append(n.kids, k)
 	}
+	nCfg := 0
 	for _, k := range n.kids {
+		if k.inCfg {
+			nCfg++
+		}
 		n.inCfg = n.inCfg || k.inCfg
 		n.inPre = n.inPre || k.inPre
 	}
+	g.emptyOrNull(n, ctx, nCfg, n.inPre)
 }
+
+var globalModes = []string{"append", "prepend", "replace", "replacearr"}
 
 // genPlan draws a plan for the top-level struct.
 func genPlan(r *rand.Rand, top *tnode, force bool) (*pnode, bool) {
 	g := &pgen{r: r, force: force, useVars: r.Intn(5) < 3}
 	n := &pnode{t: top, shape: "field", sshape: "field", inCfg: true, inPre: true}
+	if r.Intn(3) == 0 {
+		n.global = globalModes[r.Intn(len(globalModes))]
+		n.mode = n.global
+	}
 	g.structKids(n, pctx{true, true, true})
+	repath(n)
 	return n, !g.infeasible
 }
 
@@ -685,6 +803,20 @@ func (n *pnode) clone(parent *pnode, m map[*pnode]*pnode) *pnode {
 	}
 	m[n] = &c
 	return &c
+}
+
+// repath recomputes the paths below n from the segments.
+func repath(n *pnode) {
+	for _, k := range n.kids {
+		k.path, k.rpath = n.path, n.rpath
+		if k.seg != "" {
+			k.path = childPath(n.path, k.seg)
+		}
+		if k.rseg != "" {
+			k.rpath = childPath(n.rpath, k.rseg)
+		}
+		repath(k)
+	}
 }
 
 func (n *pnode) each(f func(*pnode)) {
